@@ -67,6 +67,8 @@ impl Monitor for C07 {
                 rep.count("limit_equal_to_needed_limit_cases", 1);
             }
             limits.push(n + 1);
+            // (very large limits are exercised for the uniprocessor analyses in C06 and for the search itself
+            // in C08; the work of the rr/bw analyses grows with their limit, see DESIGN.md §6.3)
         } else {
             limits.push(rng.range(1, generous));
         }
